@@ -1,0 +1,65 @@
+//go:build verif
+
+package hopserver
+
+import (
+	"hop.computer/hop/authgrants"
+	"hop.computer/hop/certs"
+)
+
+// Export shims for the verification harness (property C07).  Nothing here re-implements logic:
+// the methods only give access to unexported state and call the unexported functions.
+
+// VerifSession is a hopSession without transport connection and tube muxer.
+type VerifSession struct{ sess *hopSession }
+
+// VerifNewSession builds a session in the state checkAuthorization leaves it in.
+func (s *HopServer) VerifNewSession(user string, usingAuthGrant bool, actions []authgrants.Authgrant) *VerifSession {
+	return &VerifSession{&hopSession{
+		server:            s,
+		user:              user,
+		usingAuthGrant:    usingAuthGrant,
+		authorizedActions: actions,
+	}}
+}
+
+// CheckCmd calls the unexported checkCmd.
+func (v *VerifSession) CheckCmd(cmd string, shell bool) (uint32, error) {
+	id, err := v.sess.checkCmd(cmd, shell)
+	return uint32(id), err
+}
+
+// CheckIntent calls the unexported checkIntent.
+func (v *VerifSession) CheckIntent(i authgrants.Intent, principalCert *certs.Certificate) error {
+	return v.sess.checkIntent(i, principalCert)
+}
+
+// UsingAuthGrant reports whether the session was admitted through authorization grants.
+func (v *VerifSession) UsingAuthGrant() bool { return v.sess.usingAuthGrant }
+
+// AuthorizedActions returns the grants the session still holds.
+func (v *VerifSession) AuthorizedActions() []authgrants.Authgrant {
+	return append([]authgrants.Authgrant(nil), v.sess.authorizedActions...)
+}
+
+// VerifAgMap gives access to the server's grant map.
+func (s *HopServer) VerifAgMap() *authgrants.AuthgrantMapSync { return s.agMap }
+
+// VerifSessions returns the live sessions in creation order (by session id).
+func (s *HopServer) VerifSessions() []*VerifSession {
+	s.sessionLock.Lock()
+	defer s.sessionLock.Unlock()
+	var max sessID
+	for id := range s.sessions {
+		if id >= max {
+			max = id + 1
+		}
+	}
+	var out []*VerifSession
+	for id := sessID(0); id < max; id++ {
+		if sess, ok := s.sessions[id]; ok {
+			out = append(out, &VerifSession{sess})
+		}
+	}
+	return out
+}
